@@ -5,7 +5,8 @@ Extracted data (everything the model coq/pipe/Model.v interprets):
     (the cfg-resolved `const MSG_NOWAIT` -> libc constant -> measured value); that the result of
     the `match` is discarded (`;`, no `?`, no binding) and that there is no loop / retry;
   * `WakeFd::wake`: forwards `(self.fd, self.method)`;
-  * `register_raw`: the probe call `send(pipe, .., len, flags)`, the patterns of the arm that
+  * `register_raw`: the probe call -- `getsockopt(pipe, level, opt, ..)` (ProbeSockType) or the older
+    zero-length `send(pipe, .., len, flags)` (ProbeEmptySend) --, the patterns of the arm that
     chooses `WakeMethod::Send`, the operations of both arms (creation of the owning `WakeFd`,
     `set_flags()?`) in source order, and what follows the match (the closure capturing the WakeFd
     by move and calling `fd.wake()`, then `super::register(signal, action)`);
@@ -57,7 +58,7 @@ def call_args(text, fname):
         raise TranslateError('expected exactly one call of %s, found %d' % (fname, len(ms)))
     lp = ms[0].end() - 1
     rp = match_brace(text, lp, '(', ')')
-    return [a.strip() for a in split_top(text[lp + 1:rp])], ms[0].start(), rp
+    return [a.strip() for a in split_top(text[lp + 1:rp]) if a.strip()], ms[0].start(), rp
 
 
 def no_loops(body, what):
@@ -227,17 +228,42 @@ def tr_register_raw(s, consts):
         raise TranslateError('register_raw: signature not recognised')
     sigv, fdv = m.group(1), m.group(2)
     no_loops(body, 'register_raw')
-    m = re.match(r'\s*let\s+(\w+)\s*=\s*unsafe\s*\{\s*libc::send\s*\(', body)
+    # optional prelude: plain `let mut x: T = <no call except size_of>;` declarations (out-parameters)
+    pos = 0
+    while True:
+        mp = re.match(r'\s*let\s+mut\s+\w+\s*(?::\s*[\w:]+\s*)?=\s*([^;]*);', body[pos:])
+        if not mp:
+            break
+        init = re.sub(r'std::mem::size_of\s*::\s*<[^>]*>\s*\(\s*\)', '', mp.group(1))
+        if re.search(r'[\w:]+\s*\(|\?|!', init):
+            raise TranslateError('register_raw: prelude declaration not recognised: ' + ws(mp.group(0)))
+        pos += mp.end()
+    body = body[pos:]
+    m = re.match(r'\s*let\s+(\w+)\s*=\s*unsafe\s*\{\s*libc::(send|getsockopt)\s*\(', body)
     if not m:
         raise TranslateError('register_raw: probe not recognised')
-    resv = m.group(1)
-    args, st, rp = call_args(body[:body.index(';')], 'send')
-    if len(args) != 4 or args[0] != fdv:
-        raise TranslateError('register_raw: probe arguments not recognised: %s' % args)
-    plen = resolve_const(args[2], s, consts)
-    pflags = resolve_const(args[3], s, consts)
-    rest = body[body.index(';') + 1:]
-    mm = re.match(r'\s*let\s+(\w+)\s*=\s*match\s*\(\s*' + resv + r'\s*,\s*Error::last_os_error\(\)\s*\.kind\(\)\s*\)\s*\{', rest)
+    resv, pcall = m.group(1), m.group(2)
+    # end of the `let res = unsafe { ... };` statement
+    ub = body.index('{', m.start())
+    ue = match_brace(body, ub)
+    stmt_end = body.index(';', ue)
+    if body[ue + 1:stmt_end].strip():
+        raise TranslateError('register_raw: probe statement not recognised')
+    args, st, rp = call_args(body[ub:ue + 1], pcall)
+    if pcall == 'send':
+        if len(args) != 4 or args[0] != fdv:
+            raise TranslateError('register_raw: probe arguments not recognised: %s' % args)
+        probe = 'ProbeEmptySend %s %s' % (coq_z(resolve_const(args[2], s, consts)), coq_z(resolve_const(args[3], s, consts)))
+        scrut = r'\(\s*' + resv + r'\s*,\s*Error::last_os_error\(\)\s*\.kind\(\)\s*\)'
+        paired = True
+    else:
+        if len(args) != 5 or args[0] != fdv:
+            raise TranslateError('register_raw: getsockopt arguments not recognised: %s' % args)
+        probe = 'ProbeSockType %s %s' % (coq_z(resolve_const(args[1], s, consts)), coq_z(resolve_const(args[2], s, consts)))
+        scrut = resv
+        paired = False
+    rest = body[stmt_end + 1:]
+    mm = re.match(r'\s*let\s+(\w+)\s*=\s*match\s*' + scrut + r'\s*\{', rest)
     if not mm:
         raise TranslateError('register_raw: match on the probe result not recognised')
     wv = mm.group(1)
@@ -253,6 +279,9 @@ def tr_register_raw(s, consts):
     pats = []
     for p in ma.group(1).split('|'):
         p = re.sub(r'\s+', '', p)
+        if not paired:
+            # the scrutinee is the bare return value: `0`, `-1`, `_`
+            p = {'0': '(0,_)', '-1': '(-1,_)', '_': '_'}.get(p, '?' + p)
         if p == '(0,_)':
             pats.append('PatZeroAny')
         elif p == '(-1,ErrorKind::WouldBlock)':
@@ -273,7 +302,7 @@ def tr_register_raw(s, consts):
     mt = re.match(r'^\s*let\s+(\w+)\s*=\s*move\s*\|\|\s*' + wv + r'\s*\.\s*wake\s*\(\s*\)\s*;\s*unsafe\s*\{\s*super::register\s*\(\s*' + sigv + r'\s*,\s*(\w+)\s*\)\s*\}\s*$', tail)
     if not mt or mt.group(1) != mt.group(2):
         raise TranslateError('register_raw: tail (closure moving the WakeFd, super::register) not recognised: ' + ws(tail)[:160])
-    return (plen, pflags), pats, then_ops, else_ops, ['RRegister']
+    return probe, pats, then_ops, else_ops, ['RRegister']
 
 
 def tr_register(s):
@@ -311,7 +340,7 @@ def translate(repo, consts):
     probe, pats, then_ops, else_ops, after_ops = tr_register_raw(s, consts)
     conv = tr_register(s)
     iter_method = tr_backend(repo)
-    for k in ('MSG_DONTWAIT', 'O_NONBLOCK', 'F_GETFL', 'F_SETFL'):
+    for k in ('MSG_DONTWAIT', 'O_NONBLOCK', 'F_GETFL', 'F_SETFL', 'SOL_SOCKET', 'SO_TYPE'):
         if k not in consts:
             raise TranslateError('no measured value for ' + k)
     o = []
@@ -324,11 +353,15 @@ def translate(repo, consts):
     o.append('Inductive rop := RMake (m : method) | RSetFlagsTry | RRegister.')
     o.append('Inductive dop := DClose.')
     o.append('Inductive conv := IntoRaw | AsRaw.')
+    o.append('(* how register_raw finds out whether the descriptor is a socket: send(fd, _, len, flags) of an empty message | getsockopt(fd, level, opt) *)')
+    o.append('Inductive probe := ProbeEmptySend (len flags : Z) | ProbeSockType (level opt : Z).')
     o.append('(* measured libc constants (the vocabulary of the OS oracle) *)')
     o.append('Definition os_MSG_DONTWAIT : Z := %s.' % coq_z(consts['MSG_DONTWAIT']))
     o.append('Definition os_O_NONBLOCK : Z := %s.' % coq_z(consts['O_NONBLOCK']))
     o.append('Definition os_F_GETFL : Z := %s.' % coq_z(consts['F_GETFL']))
     o.append('Definition os_F_SETFL : Z := %s.' % coq_z(consts['F_SETFL']))
+    o.append('Definition os_SOL_SOCKET : Z := %s.' % coq_z(consts['SOL_SOCKET']))
+    o.append('Definition os_SO_TYPE : Z := %s.' % coq_z(consts['SO_TYPE']))
     o.append('(* fn wake: (system call, byte count, flags) per arm; result discarded, no loop (else TranslateError) *)')
     o.append('Definition wake_arm (m : method) : sys * Z * Z :=')
     o.append('  match m with')
@@ -336,7 +369,7 @@ def translate(repo, consts):
         o.append('  | %s => (%s, %s, %s)' % (k, arms[k][0], coq_z(arms[k][1]), coq_z(arms[k][2])))
     o.append('  end.')
     o.append('(* fn register_raw *)')
-    o.append('Definition rr_probe : sys * Z * Z := (SysSend, %s, %s).' % (coq_z(probe[0]), coq_z(probe[1])))
+    o.append('Definition rr_probe : probe := %s.' % probe)
     o.append('Definition rr_send_pats : list ppat := %s.' % coq_list(pats))
     o.append('Definition rr_then : list rop := %s.' % coq_list(then_ops))
     o.append('Definition rr_else : list rop := %s.' % coq_list(else_ops))
